@@ -726,6 +726,101 @@ def c11_bounded(tier, seed):
     return run
 
 
+def _by_function(lst, entries, blocks=None):
+    """the listing cut at the entry symbols of the inserted functions and re-expressed relative to each part's start: WHERE the layout puts
+    a new function (and in which order several of them come) is not part of what C09 compares"""
+    labels = lst["labels"]
+    cuts = sorted((labels[n], n) for n in list(entries) + ["f"] if isinstance(labels.get(n), int))
+    raw = bytes.fromhex(lst["bytes"])
+    bounds = [(pos, "original" if n == "f" else n) for pos, n in cuts]          # (the module's own code starts at its symbol f)
+    if not bounds or bounds[0][0] != 0:
+        bounds = [(0, "leading")] + bounds
+
+    def part(p):
+        if not isinstance(p, int):
+            return p
+        name, start = "original", 0
+        for pos, n in bounds:
+            if pos <= p:
+                name, start = n, pos
+        return [name, p - start]
+    out = {"labels": {k: part(v) for k, v in labels.items()}, "inst_cfg": sorted(([part(a), part(b), t, c] for a, b, t, c in lst["inst_cfg"]), key=repr)}
+    if blocks is not None:
+        # bytes of every block by part (the concatenated section bytes say nothing once the layout leaves gaps between the parts)
+        out["bytes"] = sorted((part(pos), data) for pos, data in blocks)
+    out["func_entries"] = {k: [part(x) for x in v] for k, v in lst.get("func_entries", {}).items()}
+    return out
+
+
+def c09_inserted_functions(tier, seed):
+    """C09 for register_insert_function: several functions inserted in one apply() give the same module as one context per function, in
+    particular when a later function calls / refers to a label that an earlier function's body defines (at its start: the label is joined
+    into the stub block and lives in the reference cache while the later body is assembled)"""
+    def run():
+        from bounded import scen
+        from gtirb_rewriting import RewritingContext
+        import gtirb_functions
+        logging.getLogger("gtirb_rewriting").setLevel(logging.CRITICAL)
+        br = BResult()
+        firsts = {"label-at-start": "glob1:\nnop\nret", "label-in-the-middle": "nop\nglob1:\nnop\nret", "label-at-start-and-loop": "glob1:\ndecq %rdi\njne glob1\nret"}
+        seconds = {"calls-the-label": "call glob1\nret", "jumps-to-the-label": "jmp glob1", "address-of-the-label": "leaq glob1(%rip), %rax\nret", "calls-the-function": "call newfn0\nret"}
+        br.bound = "module shapes plain/call with and without function info; two functions inserted in one apply(): the first's body defines a global label (start / middle / start + loop), the second calls / jumps to / takes the address of that label or calls the first function; optionally an ordinary edit too"
+        br.clauses = ["C09/inserted-functions/batch-applies-iff-one-at-a-time-does", "C09/inserted-functions/batch-equals-one-at-a-time"]
+        distinct = set()
+        for kind, funcs, f1, f2, with_edit in itertools.product(("plain", "call"), (False, True), firsts, seconds, (False, True)):
+            def go(batch):
+                ir, m, bi, blocks, fl = scen.build(scen.Shape(kind, funcs))
+                bodies = [("newfn0", firsts[f1]), ("newfn1", seconds[f2])]
+                try:
+                    if batch:
+                        rc = RewritingContext(m, fl)
+                        for nm, body in bodies:
+                            rc.register_insert_function(nm, scen.mkpatch(body))
+                        if with_edit:
+                            rc.insert_at(blocks[1], 0, scen.mkpatch("nop"))
+                        rc.apply()
+                    else:
+                        if with_edit:
+                            rc = RewritingContext(m, fl)
+                            rc.insert_at(blocks[1], 0, scen.mkpatch("nop"))
+                            rc.apply()
+                        for nm, body in bodies:
+                            # (the module has function tables as soon as one function was inserted: a caller builds its functions from them)
+                            rc = RewritingContext(m, gtirb_functions.Function.build_functions(m))
+                            rc.register_insert_function(nm, scen.mkpatch(body))
+                            rc.apply()
+                except Exception as ex:      # noqa
+                    return "%s: %s" % (type(ex).__name__, str(ex)[:80])
+                from bounded.view import base_of
+                blk = [(b.address - base_of(m), bytes(b.contents).hex()) for b in m.byte_blocks if b.section.name == ".text" and b.size]
+                lst = json.loads(_listing(ir, m))
+                # the block PARTITION is not compared either: bytes per instruction start
+                starts = sorted({a for a, _, _, _ in lst["inst_cfg"] if isinstance(a, int)} | {x for _, x, t_, _ in lst["inst_cfg"] if isinstance(x, int)})
+                insn = []
+                for pos, hexd in blk:
+                    raw = bytes.fromhex(hexd)
+                    cuts = [x - pos for x in starts if pos < x < pos + len(raw)]
+                    prev = 0
+                    for c in cuts + [len(raw)]:
+                        insn.append((pos + prev, raw[prev:c].hex()))
+                        prev = c
+                return _by_function(lst, ["newfn0", "newfn1"], insn)
+            br.cases += 1
+            distinct.add((kind, funcs, f1, f2, with_edit))
+            desc = {"shape": "kind=%s funcs=%s" % (kind, funcs), "first function": firsts[f1].splitlines(), "second function": seconds[f2].splitlines(), "ordinary edit too": with_edit}
+            a, b = go(True), go(False)
+            if isinstance(a, str) != isinstance(b, str):
+                br.failures.append({"clause": "C09/inserted-functions/batch-applies-iff-one-at-a-time-does", "witness": desc, "detail": "batch: %s / one at a time: %s" % (a if isinstance(a, str) else "ok", b if isinstance(b, str) else "ok")})
+            elif not isinstance(a, str) and a != b:
+                diff = [k_ for k_ in a if a[k_] != b.get(k_)]
+                br.failures.append({"clause": "C09/inserted-functions/batch-equals-one-at-a-time", "witness": desc, "detail": "listings differ in %s" % diff})
+            if len(br.samples) < 2:
+                br.samples.append(desc)
+        br.nontrivial = len(distinct)
+        return br
+    return run
+
+
 def jobs_c09(tier="quick", seed=0):
     from . import c16_invoke
     for j in c16_invoke.jobs(tier, seed):
@@ -735,6 +830,7 @@ def jobs_c09(tier="quick", seed=0):
     for j in kernel_ordering.jobs(tier, seed):
         j.id = "C09/" + j.id
         yield j
+    yield Job("C09/inserted-functions-bounded", c09_inserted_functions(tier, seed), kind="B", func="gtirb_rewriting.rewriting:RewritingContext._apply_function_insertion / _invoke_patch")
     yield Job("C09/batch-and-monitor-bounded", c09_bounded(tier, seed), kind="B", func="gtirb_rewriting.rewriting:RewritingContext.apply / _modify.insert / delete")
 
 
@@ -758,5 +854,9 @@ def jobs_c11(tier="quick", seed=0):
     for j in kernel_edges.jobs(tier, seed):
         j.id = "C11/" + j.id
         yield j
+    # registration order of requests at DIFFERENT locations must not matter: for retarget requests that is the contract "the recorded
+    # map is exactly the requests as given" (a chain A->B, B->C stays a chain in either order), discharged under C18 and here
+    from . import c18
+    yield Job("C11/retarget-request-history", c18.history_harness, kind="E", func="gtirb_rewriting.rewriting:RewritingContext.retarget_symbol_uses")
     yield Job("C11/scratch-register-order", scratch_order_harness, kind="E", func="gtirb_rewriting.abi:ABI._scratch_registers (all registered ABIs)", expect_cover=("enumerated",))
     yield Job("C11/hash-seeds-bounded", c11_bounded(tier, seed), kind="B", func="gtirb_rewriting.rewriting:RewritingContext.apply")
